@@ -149,4 +149,39 @@ example : PlacedIn (nodeStep exSparse.root
 example : IdInv (hstep exSparse ⟨1, .map (.setitem ['b'] (.elem exArr))⟩) :=
   hstep_idinv _ _ exSparse_ok.ids ⟨by decide, by decide, by decide⟩
 
+/-! ### the hypotheses are needed: concrete counter-examples on the model -/
+
+/-- `ArgsFresh` without its key clause (no Element arguments here anyway) -/
+def ArgsFresh' (s : HState) (op : Op) : Prop :=
+  ((placedArgs op).flatMap ids ++ ids s.root).Nodup ∧ (∀ a ∈ (placedArgs op).flatMap ids, a < s.next)
+
+def exDup : HState :=
+  ⟨.mk { id := 1, parent := none } (.mk { cid := 30, kind := .dict } .none [.mk { cid := 31, kind := .integer, name := some ['x'] } .none []])
+    [.mk { id := 2, parent := some 1, key := ['x'] } (.mk { cid := 31, kind := .integer, name := some ['x'] } .none []) [],
+     .mk { id := 3, parent := some 1, key := ['x'] } (.mk { cid := 31, kind := .integer, name := some ['x'] } .none []) []], 10⟩
+
+/-- **without `kok` uniqueness is not preserved.**  A mapping node holding two children under one
+    key (a state the model's type allows and Python's dict does not): `d['x'] = 5` overwrites
+    both with the updated first child — identities unique and below the counter before, the
+    element with identity 2 stored twice after. -/
+theorem uniqueIds_needs_keys :
+    UniqueIds exDup.root ∧ (∀ a ∈ ids exDup.root, a < exDup.next) ∧ wp exDup.root = true ∧ kok exDup.root = false ∧
+      ArgsFresh' exDup (.map (.setitem ['x'] (.plain (.int 5)))) ∧
+      ids (hstep exDup ⟨1, .map (.setitem ['x'] (.plain (.int 5)))⟩).root = [1, 2, 2] := by
+  refine ⟨by unfold UniqueIds; decide, by decide, by decide, by decide, ⟨by decide, by decide⟩, by decide⟩
+
+def exLow : HState := ⟨(blank exLS none [] 1).1, 5⟩
+
+/-- **an Element argument at or above the counter collides with the next allocation**: appending an
+    element with identity 5 to a List while the counter is 5 gives its new slot identity 5 too. -/
+theorem uniqueIds_needs_below :
+    IdInv exLow ∧ ids (hstep exLow ⟨1, .seq (.append (.elem (.mk { id := 5, parent := none } exI [])))⟩).root = [1, 5, 5] :=
+  ⟨⟨by unfold UniqueIds; decide, by decide, by decide⟩, by decide⟩
+
+/-- **aliasing**: an argument that is already in the tree is stored a second time by the model
+    (the real object would move); outside the property's quantifier -/
+theorem uniqueIds_needs_fresh :
+    ¬ UniqueIds (hstep exS3 ⟨1, .seq (.append (.elem exDict))⟩).root := by
+  unfold UniqueIds; decide
+
 end Flatland.C08.Proofs
